@@ -28,6 +28,8 @@ def flat(vals):
 
 
 def parse_line(line):
+    if line.startswith('NONE'):
+        return 'NONE'
     if line.startswith('ERR'):
         return None
     return [float.fromhex(t) for t in line.split()]
@@ -50,14 +52,18 @@ def sym_num(ctx, gen, modname, ncases):
         for (t, args), line in zip(meta, outs):
             got = parse_line(line)
             try:
-                exp = np.asarray(t.num_fn(*args), dtype=float).flatten()
+                r = t.num_fn(*args)
+                exp = 'NONE' if r is None else np.asarray(r, dtype=float).flatten()
             except Exception as ex:  # numeric path raises where symbolic path produced a value
-                exp = None
+                exp = 'NONE' if t.out.startswith('O:') else None
                 err = f"{type(ex).__name__}: {ex}"
             ctx.corr['cases'] += 1
             ctx.case(('corr', t.name, tuple(flat(args))))
             ok = True
-            if exp is None or got is None or len(got) != len(exp):
+            if isinstance(exp, str) or isinstance(got, str):
+                ok = isinstance(exp, str) and isinstance(got, str)
+                detail = f"model={got} impl={exp}"
+            elif exp is None or got is None or len(got) != len(exp):
                 ok = False
                 detail = f"model={got} impl={'raised ' + err if exp is None else list(exp)}"
             else:
